@@ -194,7 +194,7 @@ func panicMessage(ex *explorer, p targetPanic) string {
 	var v string
 	switch x := p.v.(type) {
 	case rtError:
-		v = "runtime error: " + normDigits(string(x))
+		v = "runtime error: " + rtCategory(string(x))
 	case iface:
 		v = ex.describePanicValue(x)
 	default:
@@ -262,4 +262,16 @@ func normDigits(s string) string {
 		sb.WriteRune(c)
 	}
 	return sb.String()
+}
+
+// rtCategory keeps the stable part of a run-time error text ("index out of range",
+// "slice bounds out of range", ...): the numbers differ between inputs and between the engine
+// and the native run time.
+func rtCategory(s string) string {
+	for _, cut := range []string{" [", " with length", " (method", " (call"} {
+		if i := strings.Index(s, cut); i >= 0 {
+			s = s[:i]
+		}
+	}
+	return normDigits(s)
 }
